@@ -115,6 +115,10 @@ static void forged_checksums(Ctx &c, const Sample &s, uint64_t &evals) {
             Bytes m = s.file; memcpy(m.data() + dloc, dg.data(), ds); evals++;
             if (lib_opens_bytes(m)) { c.extra_evals = evals; c.fail("forged-checksum-accepted", "the stored checksum was replaced by the checksum of the header with bytes [" + std::to_string(st[0].first) + "," + std::to_string(st[0].second) + ") " + (zero ? "zeroed" : "left out") + " and the file still opens: those bytes are not covered"); }
         }
+        // a detached header whose stored checksum was computed over its own identifier (ZHR1) instead of the specified ZCK1
+        if (memcmp(s.file.data(), "\0ZHR1", 5) == 0) { Bytes msg; for (size_t i = 0; i < H; i++) { if (i >= dloc && i < pq.h.lead_size) continue; msg.push_back(s.file[i]); }
+            Bytes dg = ref::digest((int)pq.h.hash_type, msg.data(), msg.size()); Bytes m = s.file; memcpy(m.data() + dloc, dg.data(), ds); evals++;
+            if (dg != orig_digest && lib_opens_bytes(m)) { c.extra_evals = evals; c.fail("forged-checksum-accepted", "a detached header whose stored checksum was computed over its own identifier (ZHR1) rather than over ZCK1 as the format specifies still opens"); } }
         c.label("forged-checksums");
     }
 }
